@@ -194,7 +194,8 @@ class ClassDiagram:
         """Initialize the diagram with the provided classes and build relations."""
         self._dependency_graph = rx.PyDiGraph()
         for clazz in classes:
-            self.add_node(WrappedClass(clazz=clazz))
+            # not a fresh wrapper: a class that is listed twice is one node
+            self.add_node(clazz)
         self._create_all_relations()
 
     def get_associations_with_condition(
